@@ -56,6 +56,7 @@ typedef struct {
    int tell[5];                   /* A B C D E */
    int strip;
    int c1, cm, c2;
+   int used1, used2, nshrink;      /* enc.offs+enc.end_offs at the ec_enc_shrink calls of opus_encode_frame_native */
    int out_len;                   /* return value of this frame (from cat), -1 unknown */
 } FrameRec;
 
@@ -74,6 +75,7 @@ static void fr_init(FrameRec *f)
    f->act = -1; f->silk_act = -9; f->sret = 0; f->nb = -7777; f->isr = -7777; f->swr = 0; f->abw = 0; f->wb = 0;
    f->tell[0] = f->tell[1] = f->tell[2] = f->tell[3] = f->tell[4] = -7777;
    f->strip = -7777; f->c1 = f->cm = f->c2 = -7777; f->out_len = -1; f->sbr = 0;
+   f->used1 = f->used2 = -7777; f->nshrink = 0;
 }
 static void tr(const char *fmt, ...)
 {
@@ -93,6 +95,7 @@ static int verif_celt(int site, CELTEncoder *st, const opus_res *pcm, int frame_
    int nbCompressedBytes, ec_enc *enc);
 static int verif_tell(int v, int site);
 static void verif_ec_enc_done(ec_enc *enc);
+static void verif_ec_enc_shrink(ec_enc *enc, opus_uint32 size);
 static void verif_run_analysis(TonalityAnalysisState *analysis, const CELTMode *celt_mode, const void *analysis_pcm,
    int analysis_frame_size, int frame_size, int c1, int c2, int C, opus_int32 Fs, int lsb_depth, downmix_func downmix,
    AnalysisInfo *analysis_info);
@@ -108,6 +111,7 @@ enum { VERIF_CTR_BASE = __COUNTER__ };
 #define celt_encode_with_ec(st, pcm, fs, c, nb, enc) verif_celt(__COUNTER__ - VERIF_CTR_BASE, st, pcm, fs, c, nb, enc)
 #define ec_tell(e) verif_tell(ec_tell(e), __COUNTER__ - VERIF_CTR_BASE)
 #define ec_enc_done verif_ec_enc_done
+#define ec_enc_shrink verif_ec_enc_shrink
 #define run_analysis verif_run_analysis
 #define tonality_get_info verif_tonality_get_info
 #define opus_packet_pad verif_pad
@@ -130,6 +134,7 @@ typedef char verif_site_count_check[(VERIF_CTR_END - VERIF_CTR_BASE == 12) ? 1 :
 #undef celt_encode_with_ec
 #undef ec_tell
 #undef ec_enc_done
+#undef ec_enc_shrink
 #undef run_analysis
 #undef tonality_get_info
 #undef opus_packet_pad
@@ -176,8 +181,18 @@ static void verif_ec_enc_done(ec_enc *enc)
    int ret = (ec_tell(enc) + 7) >> 3;
    ec_enc_done(enc);
    /* `while(ret>2&&data[ret]==0)ret--;` with data = enc->buf - 1 (opus_encoder.c:2450) */
-   while (ret > 2 && enc->buf[ret - 1] == 0) ret--;
+   if ((opus_uint32)ret <= enc->storage)       /* otherwise the frame is "busted" (:2434) and the scan is not reached */
+      while (ret > 2 && enc->buf[ret - 1] == 0) ret--;
    R.cur.strip = ret;
+}
+static void verif_ec_enc_shrink(ec_enc *enc, opus_uint32 size)
+{
+   /* first call of a frame: :2276 (non-SILK modes); second: :2385 (hybrid, SILK->CELT redundancy) */
+   int used = (int)(enc->offs + enc->end_offs);
+   if (R.cur.nshrink == 0) R.cur.used1 = used; else if (R.cur.nshrink == 1) R.cur.used2 = used; else R.contract_bad |= 128;
+   R.cur.nshrink++;
+   tr("6:%d:%d", (int)size, used);
+   ec_enc_shrink(enc, size);
 }
 static void verif_run_analysis(TonalityAnalysisState *analysis, const CELTMode *celt_mode, const void *analysis_pcm,
    int analysis_frame_size, int frame_size, int c1, int c2, int C, opus_int32 Fs, int lsb_depth, downmix_func downmix,
@@ -251,6 +266,7 @@ static struct {
    OpusEncoder *st; const opus_res *pcm; int lsb;
 } G;
 static long g_cases, g_shadow_mismatch, g_guard_bad;
+static int g_quiet;
 
 static void emit_I(void)
 {
@@ -261,7 +277,7 @@ static void emit_I(void)
    FrameRec frs[MAXFR + 1];
    nfr = R.nfr_closed;
    for (i = 0; i < nfr; i++) frs[i] = R.fr[i];
-   if (nfr == 0 || R.cur.has_silk || R.cur.tell[3] != -7777 || R.cur.tell[4] != -7777) frs[nfr++] = R.cur;
+   if (nfr == 0 || R.cur.has_silk || R.cur.tell[3] != -7777 || R.cur.tell[4] != -7777 || R.cur.nshrink) frs[nfr++] = R.cur;
    encfs = G.frame_size > 0 ? G.frame_size / (R.nfr_closed > 0 ? R.nfr_closed : 1) : 0;
    /* stereo_width as compute_stereo_width returned it (opus_encoder.c:872), then :1420-1423 */
    if (st->channels == 2 && G.pre_force_channels != 1)
@@ -290,8 +306,8 @@ static void emit_I(void)
    printf(" nf=%d", nfr);
    for (i = 0; i < nfr; i++) {
       FrameRec *f = &frs[i];
-      printf(" f%d=%d,%d,%d,%d,%d,%d,%d,%d,%d,%d,%d,%d,%d,%d,%d,%d,%d,%d", i, f->aval, f->act, f->sbr, f->sret, f->nb, f->isr, f->swr,
-             f->abw, f->wb, f->tell[0], f->tell[1], f->tell[2], f->tell[3], f->tell[4], f->strip, f->c1, f->cm, f->c2);
+      printf(" f%d=%d,%d,%d,%d,%d,%d,%d,%d,%d,%d,%d,%d,%d,%d,%d,%d,%d,%d,%d,%d", i, f->aval, f->act, f->sbr, f->sret, f->nb, f->isr, f->swr,
+             f->abw, f->wb, f->tell[0], f->tell[1], f->tell[2], f->tell[3], f->tell[4], f->strip, f->c1, f->cm, f->c2, f->used1, f->used2);
    }
    printf("\n");
 }
@@ -345,7 +361,7 @@ opus_int32 opus_encode_native(OpusEncoder *st, const opus_res *pcm, int frame_si
    ret = verif_real_opus_encode_native(st, pcm, frame_size, data, out_data_bytes, lsb_depth, analysis_pcm, analysis_size,
                                        c1, c2, analysis_channels, downmix, float_api);
    G.live = 0;
-   emit_I(); emit_O(ret, data);
+   if (!g_quiet) { emit_I(); emit_O(ret, data); }
    g_cases++;
    return ret;
 }
@@ -560,25 +576,55 @@ static void run_ms(uint64_t seed, long sessions)
                            ms = opus_multistream_surround_encoder_create(fs, ch, 2, &streams, &coupled, mapping, app, &err); }
       else { static const int chs[] = {4, 6, 9, 11}; ch = chs[vbelow(&r, 2)]; pj = opus_projection_ambisonics_encoder_create(fs, ch, 3, &streams, &coupled, app, &err); }
       if (!ms && !pj) continue;
+      { int cur_br = OPUS_AUTO, cur_vbr = 1;
       for (k = 0; k < steps; k++) {
          int d = DUR400[vchance(&r, 50) ? 3 : vbelow(&r, 9)], afs = fs / 400 * d, out, kind = vbelow(&r, 6);
          unsigned char *o;
          if (vchance(&r, 40)) {
             int br = pick_bitrate(&r), vbr = vbelow(&r, 2);
             if (br > 0) br = IMIN(br * streams, 512000 * streams);
+            cur_br = br; cur_vbr = vbr;
             if (ms) { opus_multistream_encoder_ctl(ms, OPUS_SET_BITRATE(br)); opus_multistream_encoder_ctl(ms, OPUS_SET_VBR(vbr)); opus_multistream_encoder_ctl(ms, OPUS_SET_COMPLEXITY(vbelow(&r, 11))); }
             else { opus_projection_encoder_ctl(pj, OPUS_SET_BITRATE(br)); opus_projection_encoder_ctl(pj, OPUS_SET_VBR(vbr)); }
          }
          out = vchance(&r, 40) ? vrange(&r, 1, 8 * streams) : vchance(&r, 50) ? vrange(&r, 1, 400 * streams) : vrange(&r, 1, 4000);
          o = out_buf(out);
          gen_pcm(&r, kind, x, afs, ch, fs, &phase);
-         printf("# ms fam=%d ch=%d streams=%d coupled=%d afs=%d out=%d\n", fam, ch, streams, coupled, afs, out);
          if (ms) err = opus_multistream_encode_float(ms, x, afs, o, out); else err = opus_projection_encode_float(pj, x, afs, o, out);
-         printf("# ms ret=%d\n", err);
+         { int nb = err > 0 ? opus_packet_get_nb_samples(o, 1, fs) : 0;   /* first stream only; duration check is per stream below */
+           printf("# MS fam=%d fs=%d ch=%d streams=%d coupled=%d afs=%d out=%d vbr=%d br=%d ret=%d\n", fam, fs, ch, streams, coupled, afs, out, cur_vbr, cur_br, err); (void)nb; }
          check_guard();
-      }
+      } }
       if (ms) opus_multistream_encoder_destroy(ms);
       if (pj) opus_projection_encoder_destroy(pj);
+   }
+}
+
+/* ------------------------------------------------------------------ constrained-VBR long-run average (S4 only) */
+static void run_cvbr(uint64_t seed, int nconf, int seconds)
+{
+   vrng r; int c; r.s = seed * 0xC2B2AE3D27D4EB4FULL + 3;
+   g_quiet = 1;
+   for (c = 0; c < nconf; c++) {
+      static float x[5760 * 2];
+      static const int brs[] = {6000, 8000, 12000, 16000, 24000, 32000, 48000, 64000, 96000, 128000, 192000, 256000};
+      int fs = FSS[vbelow(&r, 5)], ch = 1 + vbelow(&r, 2), app = APPS[vbelow(&r, 3)], err;
+      int d = DUR400[vbelow(&r, 9)], afs = fs / 400 * d, br = brs[vbelow(&r, 12)] * ch, kind = 1 + vbelow(&r, 5);
+      int nfr = seconds * 400 / d, k; long bytes = 0, fails = 0; double phase = 0;
+      int cx = vchance(&r, 50) ? 10 : (int)vbelow(&r, 11);
+      OpusEncoder *e = opus_encoder_create(fs, ch, app, &err);
+      if (!e) continue;
+      opus_encoder_ctl(e, OPUS_SET_BITRATE(br)); opus_encoder_ctl(e, OPUS_SET_VBR(1)); opus_encoder_ctl(e, OPUS_SET_VBR_CONSTRAINT(1));
+      opus_encoder_ctl(e, OPUS_SET_COMPLEXITY(cx));
+      for (k = 0; k < nfr; k++) {
+         unsigned char *o = out_buf(1500); int ret;
+         gen_pcm(&r, kind, x, afs, ch, fs, &phase);
+         ret = v_encode_float(e, x, afs, o, 1500);
+         check_guard();
+         if (ret < 1) fails++; else bytes += ret;
+      }
+      printf("V cvbr fs=%d ch=%d app=%d frame=%d br=%d kind=%d cx=%d frames=%d bytes=%ld fails=%ld\n", fs, ch, app, afs, br, kind, cx, nfr, bytes, fails);
+      opus_encoder_destroy(e);
    }
 }
 
@@ -590,10 +636,10 @@ static void run_silkrate(void)
    for (bw = 1101; bw <= 1105; bw++) for (f20 = 0; f20 < 2; f20++) for (vbr = 0; vbr < 2; vbr++) for (fec = 0; fec < 2; fec++) for (ch = 1; ch <= 2; ch++) {
       for (i = 0; i < (int)(sizeof pts / sizeof pts[0]); i++) {
          int k; for (k = 1; k <= ch; k++) { rate = pts[i] * k;
-         printf("I encskel silkrate %d %d %d %d %d %d\nO %d\n", rate, bw, f20, vbr, fec, ch, compute_silk_rate_for_hybrid(rate, bw, f20, vbr, fec, ch)); }
+         printf("I encskel silkrate %d %d %d %d %d %d\nO v=%d\n", rate, bw, f20, vbr, fec, ch, compute_silk_rate_for_hybrid(rate, bw, f20, vbr, fec, ch)); }
       }
       for (rate = -2000; rate < 140000; rate += 37 + (bw - 1101) * 6 + f20 + 2 * vbr + 4 * fec)
-         printf("I encskel silkrate %d %d %d %d %d %d\nO %d\n", rate, bw, f20, vbr, fec, ch, compute_silk_rate_for_hybrid(rate, bw, f20, vbr, fec, ch));
+         printf("I encskel silkrate %d %d %d %d %d %d\nO v=%d\n", rate, bw, f20, vbr, fec, ch, compute_silk_rate_for_hybrid(rate, bw, f20, vbr, fec, ch));
    }
 }
 
@@ -606,10 +652,10 @@ static void run_gentoc(void)
       if (mode == 1000 && (bw > 1103 || fr > 100 || fr < 16)) continue;
       if (mode == 1001 && (bw < 1104 || fr > 100 || fr < 50)) continue;
       if (mode == 1002 && fr < 50) continue;
-      printf("I encskel gentoc %d %d %d %d\nO %d\n", mode, fr, bw, ch, gen_toc(mode, fr, bw, ch));
+      printf("I encskel gentoc %d %d %d %d\nO v=%d\n", mode, fr, bw, ch, gen_toc(mode, fr, bw, ch));
    }
    { int fs, v, a; for (fs = 0; fs < 5; fs++) for (v = 4999; v <= 5010; v++) for (a = 0; a <= 6000; a += (a < 130 ? 1 : 7))
-        printf("I encskel fss %d %d %d\nO %d\n", a, v, FSS[fs], (int)frame_size_select(a, v, FSS[fs])); }
+        printf("I encskel fss %d %d %d\nO v=%d\n", a, v, FSS[fs], (int)frame_size_select(a, v, FSS[fs])); }
 }
 
 int main(int argc, char **argv)
@@ -623,6 +669,7 @@ int main(int argc, char **argv)
    if (argc >= 4 && !strcmp(argv[1], "rand")) run_rand(strtoull(argv[2], 0, 10), atol(argv[3]));
    else if (argc >= 4 && !strcmp(argv[1], "sweep")) run_sweep(strtoull(argv[2], 0, 10), atoi(argv[3]));
    else if (argc >= 4 && !strcmp(argv[1], "ms")) run_ms(strtoull(argv[2], 0, 10), atol(argv[3]));
+   else if (argc >= 5 && !strcmp(argv[1], "cvbr")) run_cvbr(strtoull(argv[2], 0, 10), atoi(argv[3]), atoi(argv[4]));
    else if (argc >= 2 && !strcmp(argv[1], "silkrate")) run_silkrate();
    else if (argc >= 2 && !strcmp(argv[1], "gentoc")) run_gentoc();
    else { fprintf(stderr, "usage: c05_encsize rand|sweep|ms <seed> <n> | silkrate | gentoc\n"); return 64; }
